@@ -106,8 +106,14 @@ def r_task_oblig(ctx, mode="implies", rule="R-TASK-OBLIG", obligations=True):
                     continue
                 scheduled_branch = ifs[0].term[3]
                 # R-SET-ASSERTIONS: the other branch moves the task to a single negative point
+                # ... of its own: minus the task number (>= 1 by R-NEG-POINT), or a value drawn from the problem's counter of unique
+                # negative integers (the same generator as the points of unselected workers)
                 n = heap_term(run, "_task_number")
                 past = app("neg", n) if n is not None else None
+                drawn = [s_[3] if s_[2] == st else s_[2] for s_ in subterms(ifs[0].term[4])
+                         if is_app(s_, "==") and len(s_) == 4 and st in (s_[2], s_[3])]
+                if len(set(drawn)) == 1 and "_unique_integer" in show(drawn[0]) and "active_problem" in show(drawn[0]):
+                    past = drawn[0]
                 exp_else = [eq(st, past), eq(en, past)] + ([eq(dur, K(0))] if dur is not None and dur[0] == "z3var" else [])
                 ok, wit, method = decide_equiv(ctx, ifs[0].term[4], And(*exp_else))
                 if True:
@@ -116,7 +122,7 @@ def r_task_oblig(ctx, mode="implies", rule="R-TASK-OBLIG", obligations=True):
                                sample={"emitted": show(norm(ifs[0].term[4]))[:300], "decided_by": method})
                     else:
                         ctx.violation("R-SET-ASSERTIONS", where, "unscheduled branch",
-                                      f"an unscheduled {c.name} must be start == end == -task_number"
+                                      f"an unscheduled {c.name} must be start == end == one negative point of its own (-task_number or a unique negative integer)"
                                       f"{' and duration == 0' if dur is not None and dur[0] == 'z3var' else ''}; "
                                       f"emitted {show(norm(ifs[0].term[4]))[:300]}", location, witness=str(wit)[:300])
                 # anything asserted outside the If binds the unscheduled task too
